@@ -193,16 +193,18 @@ def scenarios(ctx):
     for ver in (3, 4):
         out.append(Scn('live-pub-v%d' % ver, profile='pub', mode='async', closing=False,
                        connects=[(True, 0, ver), (False, 3, ver)], reconnects=[(False, 3, ver)], pub_qos=(0, 1, 2),
-                       budgets=dict(connect=1, connack=1, pub=2 if not q else 1, ack=2 if not q else 1, tick=2 if q else 3,
+                       budgets=dict(connect=1, connack=1, pub=3 if not q else 1, ack=3 if not q else 1, tick=2 if q else 4,
                                     disconnect=1)))
         out.append(Std('live-resume-v%d' % ver, profile='pub', mode='sync', closing=False,
                        init=(('connect', 0, False, 0, ver), ('connack', 0, 0, False), ('setwin', 0, 2)),
                        connects=[(False, 0, ver)], reconnects=[(False, 0, ver)], pub_qos=(1, 2),
-                       budgets=dict(pub=2, ack=1 if q else 2, tick=2, lose=1, rebuild=1, connect=1, connack=1)))
+                       budgets=dict(pub=2 if q else 3, ack=1 if q else 3, tick=2 if q else 3, lose=1 if q else 2, rebuild=1 if q else 2,
+                                    connect=1 if q else 2, connack=1 if q else 2)))
         out.append(Std('live-sub-v%d' % ver, profile='pubsub', mode='async', closing=False,
                        init=(('connect', 0, True, 2, ver), ('connack', 0, 0, False)),
                        sub_shapes=('str', 'list'), unsub_shapes=('str', 'list'), inpubs=inp, inrels=((2,),),
-                       budgets=dict(sub=1, unsub=1, ack=1, tick=2 if q else 3, inpub=1 if q else 2, inrel=1, disconnect=1)))
+                       budgets=dict(sub=1 if q else 2, unsub=1, ack=1 if q else 2, tick=2 if q else 4, inpub=1 if q else 2, inrel=1 if q else 2,
+                                    disconnect=1)))
     return out
 
 
